@@ -183,8 +183,12 @@ class SocketServer_Multiplex(object):
         except Exception:
             # other error occurred, close the connection, but also log a warning
             ex_t, ex_v, ex_tb = sys.exc_info()
-            tb = errors.format_traceback(ex_t, ex_v, ex_tb)
-            msg = "error during handleRequest: %s; %s" % (ex_v, "".join(tb))
+            try:
+                tb = errors.format_traceback(ex_t, ex_v, ex_tb)
+                msg = "error during handleRequest: %s; %s" % (ex_v, "".join(tb))
+            except Exception:
+                # (not even printable: that must not end the server loop)
+                msg = "error during handleRequest: %r (can't be printed)" % ex_t
             log.warning(msg)
             return False
 
